@@ -183,7 +183,11 @@ def judge(ctx, case, log, results, cemis, escaped) -> None:
                 if not cand:
                     why = "no-ack"
                 else:
-                    a = cand[0]  # the first ACK after the last transmission ends the wait
+                    # a normal return needs an error-free ACK: the first such ACK after the last
+                    # transmission is the one that completed the call (an error ACK delivered in the
+                    # same loop iteration does not stop a later error-free one from being taken)
+                    ok_acks = [x for x in cand if x["status_code"] == "E_NO_ERROR"]
+                    a = ok_acks[0] if ok_acks else cand[0]
                     if a["status_code"] != "E_NO_ERROR":
                         why = "error-status"
                     elif a["communication_channel_id"] != last_tx["communication_channel_id"]:
